@@ -277,7 +277,7 @@ class ExprGen:
             items = ["(%s, %s = %s, %s)" % (items[0], v, self.int_lit().split("_")[0], self.iexpr(0))]
         body = ", ".join(items)
         if r.random() < 0.2:
-            body = r.choice(["integer", "real", "real(8)", "character(len = 3)"]) + " :: " + body
+            body = r.choice(["integer", "real", "real{+(KIND = +}{-(-}8)", "character(len = 3)"]) + " :: " + body
         return ("[%s]" % body) if r.random() < 0.6 else ("(/ %s /)" % body)
 
     def leaf(self, d):
